@@ -694,7 +694,7 @@ var rec = ev.New("C01", "tunnel-ledger",
 		"x target {IPv4, IPv4-mapped, IPv6, domain of boundary/random length, boundary/random port} x initial payload length (boundary table: 0,1,900,65535-addrLen-2,65494,65462,65535,131070 each +-3; else log-uniform <=140000) "+
 		"x 0-4 writes per direction (boundary table incl. first-write capacity) x read-buffer size cycle {1,2,17,18,4096,65535,65551,70000,random} x copy path per side {Write/Read, ReadFrom(source)/WriteTo(sink)}, in a quarter of the plans a per-segment mix of Write, ReadFrom, and ReadFrom from an empty or failing source followed by data "+
 		"x transport fragmentation cycle per direction (1,2,17,18,19,34,35,1460,chunk+tag+-1,random, unlimited; coalescing on/off) x order {client data first, server speaks first} "+
-		"x topology {client<->server, relay chain clientA->serverA<=>clientB->serverB joined by netio.BidirectionalCopy or explicit ReadFrom}. "+
+		"x topology {client<->server, relay chain clientA->serverA<=>clientB->serverB joined by netio.BidirectionalCopy or explicit ReadFrom; for half of the relay plans the relay runs a pre-splice program per direction (greeting into the destination, pre-read of whole chunks from the source, consumed or forwarded) and joins server<=>client, server<=>server or client<=>client conns by BidirectionalCopy / ReadFrom / io.Copy, see splice-ledger}. "+
 		"Oracle: byte ledger (Payload++reads == P++writes both ways, EOF only at the end), server-observed target/user/in-request payload length, and an independent decoder of the recorded ciphertext (own BLAKE3 subkey + AES-GCM + nonce counter) "+
 		"checking address bytes, initial-payload split, padding bound, chunk sizes 1..65535 and plaintext equality. "+
 		"Non-trivial: bytes>0 both ways AND (a length within +-3 of a structural constant, or a read buffer smaller than a chunk, or a fragment boundary inside a length chunk, or relay topology). "+
